@@ -561,11 +561,11 @@ class Sidecar:
                     cur = []
                     self.loops[int(a[0])] = {'iter': a[1] if len(a) > 1 else None, 'lines': cur}
                 elif kw in ('before', 'after', 'replace', 'inside_end', 'inside_start'):
-                    m = re.match(r'(?:(\d+)\s+)?/(.*)/\s*$', arg)
+                    m = re.match(r'(?:L(\d+)\s+)?(?:(\d+)\s+)?/(.*)/\s*$', arg)
                     if not m:
                         raise ExtractionError(f'{origin}: bad anchor `{d}`')
                     cur = []
-                    self.ins.append((kw, int(m.group(1) or 1), m.group(2), cur))
+                    self.ins.append((kw, int(m.group(2) or 1), m.group(3), cur, int(m.group(1)) if m.group(1) else None))
                 elif kw == 'rewrite':
                     m = re.match(r'(\w+)\s+/(.*)/\s*->\s*(.*)$', arg)
                     if not m:
@@ -613,6 +613,13 @@ def strip_attrs(toks, log=None):
     return out
 
 
+def first_code_line(text):
+    for ln in text.split('\n'):
+        if not ln.startswith('//#'):
+            return ln
+    return ''
+
+
 def weave(fn, sc, log, lost):
     """fn: dict from Crate.find_fn; sc: Sidecar.  Returns list of text lines (Verus)."""
     lines = canon_lines(strip_attrs(fn['body'], log))
@@ -646,9 +653,11 @@ def weave(fn, sc, log, lost):
 
     # ---- loops
     ordinal = 0
+    loop_nodes = {}
     for n in walk(nodes):
         if n.is_block() and LOOP_RE.match(n.text):
             ordinal += 1
+            loop_nodes[ordinal] = n
             spec = sc.loops.get(ordinal)
             if spec is None:
                 continue
@@ -656,32 +665,35 @@ def weave(fn, sc, log, lost):
             if spec['iter'] and hdr.startswith('for '):
                 m = re.match(r'for (.+?) in (.+)$', hdr)
                 hdr = f'for {m.group(1)} in {spec["iter"]}: {m.group(2)}'
-            n.text = hdr + '\n' + '\n'.join(spec['lines']) + '\n{'
+            n.text = hdr + '\n//# @props\n' + '\n'.join(spec['lines']) + '\n//# @auto\n{'
             spec['used'] = True
     for k, spec in sc.loops.items():
         if not spec.get('used'):
             lost.append(f'{sc.name}: loop #{k} not found (the function has {ordinal} loops)')
 
     # ---- insertions
-    for where, nth, pat, text in sc.ins:
+    for where, nth, pat, text, scope in sc.ins:
         rx = re.compile(pat)
         hits = []
 
         def scan(ns):
             for idx, n in enumerate(ns):
-                first = n.text.split('\n', 1)[0]
+                first = first_code_line(n.text)
                 if rx.search(first):
                     hits.append((ns, idx, n))
                 cur = n
                 while cur.is_block():
                     scan(cur.children)
                     cur = cur.closer
-        scan(nodes)
+        if scope is None:
+            scan(nodes)
+        elif scope in loop_nodes:
+            scan(loop_nodes[scope].children)
         if len(hits) < nth:
             lost.append(f'{sc.name}: anchor #{nth} /{pat}/ not found ({len(hits)} matches)')
             continue
         ns, idx, n = hits[nth - 1]
-        new = Node('\n'.join(text))
+        new = Node('//# @props\n' + '\n'.join(text) + '\n//# @auto')
         if where == 'before':
             ns.insert(idx, new)
         elif where == 'after':
@@ -700,8 +712,9 @@ def weave(fn, sc, log, lost):
             n.children.append(new)
 
     body = flatten(nodes)
-    out = list(sc.sig)
+    out = ['//# @props'] + list(sc.sig)
     out.append('{')
+    out.append('//# @auto')
     out.extend(sc.prologue)
     for ind, txt in body:
         for sub in txt.split('\n'):
